@@ -74,6 +74,20 @@ func vhCoherent(c *RepoCache, w *vhWorld, tag string) {
 		}
 		rt.Assert(le.Title == re.Title && le.LenComments == re.LenComments && le.Status == re.Status, "excerpt-as-in-rebuild"+tag)
 		rt.Assert(le.EditLamportTime == re.EditLamportTime && le.CreateLamportTime == re.CreateLamportTime, "excerpt-clocks-as-in-rebuild"+tag)
+		sameMeta := len(le.CreateMetadata) == len(re.CreateMetadata)
+		for k, v := range re.CreateMetadata {
+			if le.CreateMetadata[k] != v {
+				sameMeta = false
+			}
+		}
+		rt.Assert(sameMeta, "excerpt-create-metadata-as-in-rebuild"+tag)
+		sameLabels := len(le.Labels) == len(re.Labels)
+		for k := range re.Labels {
+			if k < len(le.Labels) && le.Labels[k] != re.Labels[k] {
+				sameLabels = false
+			}
+		}
+		rt.Assert(sameLabels, "excerpt-labels-as-in-rebuild"+tag)
 		lb, lerr2 := c.Bugs().Resolve(id)
 		rbb, rerr2 := rb.Bugs().Resolve(id)
 		rt.Assert(lerr2 == nil && rerr2 == nil, "bug-resolves-as-in-rebuild"+tag)
@@ -119,6 +133,15 @@ func vhCoherent(c *RepoCache, w *vhWorld, tag string) {
 		}
 		rt.Assert(same, "search-document-as-in-rebuild"+tag)
 	}
+	// the known labels
+	ll, rl := c.Bugs().ValidLabels(), rb.Bugs().ValidLabels()
+	sameValid := len(ll) == len(rl)
+	for k := range rl {
+		if k < len(ll) && ll[k] != rl[k] {
+			sameValid = false
+		}
+	}
+	rt.Assert(sameValid, "known-labels-as-in-rebuild"+tag)
 	lid := c.Identities().AllIds()
 	rid := rb.Identities().AllIds()
 	rt.Assert(len(lid) == len(rid), "same-identity-ids-as-rebuild"+tag)
@@ -500,10 +523,13 @@ func VH_C11_session() {
 	id0, h0 := w.storeBug(0, w.alice, "t0", 1)
 	w.r.SetRef("refs/bugs/"+id0.String(), h0)
 	id1, h1 := w.storeBug(1, w.bob, "t1", 0)
+	h1 = dag.VHStoreCommit(w.r, bug.VHFormatVersion, []repository.Hash{h1}, w.tick(), 0,
+		[]dag.Operation{bug.VHLabelOp(w.bob, vhOpId(201), "local-label")}, w.bob)
 	w.r.SetRef("refs/bugs/"+id1.String(), h1)
-	// what an earlier fetch brought: bug 0 is ahead on the remote, bug 2 is new there
+	// what an earlier fetch brought: bug 0 is ahead on the remote (a new title and a label
+	// nobody here has seen), bug 2 is new there
 	hr := dag.VHStoreCommit(w.r, bug.VHFormatVersion, []repository.Hash{h0}, w.tick(), 0,
-		[]dag.Operation{bug.VHSetTitleOp(w.bob, vhOpId(200), "remote-title", "t0")}, w.bob)
+		[]dag.Operation{bug.VHSetTitleOp(w.bob, vhOpId(200), "remote-title", "t0"), bug.VHLabelOp(w.bob, vhOpId(202), "remote-label")}, w.bob)
 	w.r.SetRef("refs/remotes/origin/bugs/"+id0.String(), hr)
 	id2, h2 := w.storeBug(2, w.bob, "t2", 1)
 	w.r.SetRef("refs/remotes/origin/bugs/"+id2.String(), h2)
